@@ -31,8 +31,10 @@ def run(ctx):
         res.check(okk, "C09-R2", "frames:%s:%s" % (wf.name.split("::")[-1], kind), n.get("loc"), "frame list only grows / is cleared / moved out",
                   "a frame is removed from the frame list by %s in %s after it was stamped: its sequence number is consumed but never emitted, so the "
                   "reported counter is ahead of the last emitted frame and the next frame skips a number" % (kind.split(":")[-1], wf.name))
+    E.rule_counter_survives_encode(res, "C09-R1", m)
     E.rule_identity(res, "C09-R3", m)
     E.rule_type_change_rebuilds_template(res, "C09-R4", m)
+    E.rule_type_change_opens_frame(res, "C09-R4", m)
     obs, _ = accessors.analyse(fb, ctx.spec("layout.json"))
     for o in obs:
         if o.cls == "ASAM::CMP::CmpHeader" and o.tag in ("position", "frame", "readback"):
